@@ -83,7 +83,7 @@ def separated(lm, factor=2000.0):
 
 # ---------------------------------------------------------------- single-site modifications
 
-SITES = ["coord-beyond", "coord-beyond", "coord-below", "rewire", "rewire", "permute-corners", "add-cell", "remove-cell",
+SITES = ["coord-beyond", "coord-beyond", "coord-below", "rewire", "swap-corners", "permute-corners", "add-cell", "remove-cell",
          "drop-block", "add-block", "pfield-entry", "cfield-entry", "orphan-coord", "extra-column"]
 
 
@@ -126,6 +126,16 @@ def mutate(rng, lm, site):
             return m, "rewire-none", None
         row[k] = q
         return m, "rewire", True
+    if site == "swap-corners":
+        # exchange one corner between two cells of a block: every index keeps its number of uses
+        blocks = [b for b in m["cells"] if len(b[1]) >= 2]
+        if not blocks:
+            return m, "swap-none", None
+        b = rng.choice(blocks)
+        c1, c2 = rng.sample(range(len(b[1])), 2)
+        k1, k2 = rng.randrange(len(b[1][c1])), rng.randrange(len(b[1][c2]))
+        b[1][c1][k1], b[1][c2][k2] = b[1][c2][k2], b[1][c1][k1]
+        return m, "swap-corners", True
     if site == "add-cell":
         b = rng.choice([b for b in m["cells"] if b[1]])
         if rng.random() < 0.5:
